@@ -1,4 +1,5 @@
-import Netconan.Proofs.Mask
+import Netconan.Proofs.MaskShape
+import Netconan.Model.IpText
 import Netconan.Proofs.IpInt
 /-!
 # C05 – Netmasks and preserved addresses stay untouched and nothing collides with them
@@ -16,6 +17,19 @@ theorem masks_recognised :
 trick is correct for every input, including the unbounded `+ 1`). -/
 theorem isMask_iff_transitions (x : Nat) :
     isMask x = true ↔ (diffOf x = 0 ∨ ∃ k, diffOf x = 2^k) := isMask_iff x
+
+/-- **`_is_mask` accepts exactly the netmask- and wildcard-shaped values**: for every 32-bit value,
+`_is_mask x` iff `x` is ones then zeros (`2^32 - 2^j`) or zeros then ones (`2^j - 1`).  In particular
+every one-bit perturbation of a mask that is not itself a mask is treated as an ordinary address. -/
+theorem isMask_exactly_masks (x : Nat) (hx : x < 2 ^ 32) :
+    isMask x = true ↔ ∃ j, j ≤ 32 ∧ (x = 2 ^ 32 - 2 ^ j ∨ x = 2 ^ j - 1) := isMask_iff_shape x hx
+
+/-- **Text layer**: a dotted quad whose value is a mask or lies in a preserved network is returned
+exactly as written (leading zeros and all) – `_anonymize_match` returns the matched text itself. -/
+theorem mask_or_preserved_text_verbatim (c : IpText.IpCfg) (h4 : c.fam6 = false) (undo : Bool) (txt : List Char) (n : Nat)
+    (hp : IpText.parseV4 txt = .ok n) (hs : shouldAnonymize c.nets n = false) :
+    IpText.anonMatch c undo txt = txt := by
+  simp [IpText.anonMatch, h4, hp, hs]
 
 /-- A value that is a mask, or lies in a preserved network, is never sent to the anonymizer:
 `should_anonymize` is false, so the matched text is returned as written (text layer:
